@@ -202,3 +202,53 @@ Definition history (online : bool) (isz nc : Z) (fs : b64) (fts : option b64) (c
 (* sr.ns evaluated now (OnlineReader: fresh stat; Reader: from the meta dictionary) *)
 Definition live_ns (cur : Z) (r : reader) : nsres :=
   reader_ns (r_online r) (r_isz r) cur (r_nc r) (r_fts r) (r_fs r).
+
+(* ------------------------------------------------------------------ *)
+(* Reader / OnlineReader WITHOUT a meta file                           *)
+(* ------------------------------------------------------------------ *)
+(* Reader.__init__, branch `if not meta_file.exists()`:
+     if st_size / 384 % 2 == 0:   nc = nc or 384; ns = ns or st_size / 2 / 384; fs = fs or 30000
+     elif st_size / 385 % 2 == 0: nc = nc or 385; ns = ns or st_size / 2 / 385; fs = fs or 30000
+     assert nc is not None and fs is not None
+     self.meta = None;  self._nc, self._fs, self._ns = (int(nc), int(fs), int(ns))
+   nc / ns / fs are the caller's (integer) arguments or None; `x or d` takes d when x is None or 0.
+   `st_size / 384 % 2 == 0` is modelled as st_size mod 768 = 0 (exact while the float quotient is exact,
+   i.e. for every size below 2^40 and beyond); the guessed ns is the same float computation as
+   OnlineReader.ns with item size 2. *)
+Inductive nmres :=
+  | NmOk (nc ns fs : Z)     (* self._nc, self._ns, self._fs *)
+  | NmAssert                (* AssertionError: nc or fs missing *)
+  | NmType                  (* int(None): ns missing and not guessable *)
+  | NmInt.                  (* int() of inf / nan *)
+
+Definition orz (o : option Z) (d : Z) : Z :=
+  match o with Some v => if v =? 0 then d else v | None => d end.
+
+Definition guess_nc (nbytes : Z) : option Z :=
+  if nbytes mod (2 * 384) =? 0 then Some 384
+  else if nbytes mod (2 * 385) =? 0 then Some 385 else None.
+
+Definition construct_nometa (nbytes : Z) (nc ns fs : option Z) : nmres :=
+  match guess_nc nbytes with
+  | Some a =>
+      match (match ns with Some v => if v =? 0 then ns_online 2 nbytes a else NsOk v
+                         | None => ns_online 2 nbytes a end) with
+      | NsOk n => NmOk (orz nc a) n (orz fs 30000)
+      | _ => NmInt
+      end
+  | None =>
+      match nc, fs with
+      | Some c, Some f => match ns with Some n => NmOk c n f | None => NmType end
+      | _, _ => NmAssert
+      end
+  end.
+
+(* Reader.open with self.meta None: Reader.ns returns self._ns, OnlineReader.ns stats the file;
+   the mismatch branch computes ftsec and discards it (`if self.meta is not None` false);
+   np.memmap(shape=(ns, nc)) *)
+Definition open_nometa (online : bool) (isz nbytes nc ns : Z) : outcome :=
+  match (if online then ns_online isz nbytes nc else NsOk ns) with
+  | NsOk n => if memmap_ok isz nbytes n nc then Opened n nc None false else MmapError
+  | NsInt => IntError
+  | NsType => TypeErr
+  end.
